@@ -5,6 +5,7 @@ import (
 	"os"
 	"path/filepath"
 	"sort"
+	"strconv"
 	"strings"
 
 	"github.com/coreruleset/crs-toolchain/v2/zz_verif/core"
@@ -12,6 +13,9 @@ import (
 )
 
 func init() { Registry["C11"] = C11 }
+
+var c11OffsetSpellings = []string{"0", "1", "2", "3", "4", "00", "01", "002", "0000000001", "9", "10", "255", "256", "257", "258", "259", "260", "511", "512", "513", "514", "0256", "65535", "65536", "65537", "65538",
+	"4294967295", "4294967296", "4294967297", "4294967298", "18446744073709551615", "18446744073709551616", "18446744073709551617", "18446744073709551618", "99999999999999999999999999"}
 
 // A block of a rules file, with generation-side knowledge of every SecRule line.
 type secLine struct {
@@ -338,8 +342,80 @@ func C11(r *core.Run) {
 		})
 	})
 	deaths = append(deaths, d2...)
+	// chain offsets as written in file names and arguments: every spelling K (leading zeros, values
+	// around 2^8, 2^16, 2^32, 2^64) through `update --all` and `update R-chainK`. The model: the
+	// offset is the number K; it addresses the K-th chained SecRule or nothing.
+	type offRes struct {
+		K, Mode string
+		Agree   bool
+		Why     string
+	}
+	offs, d3 := core.Parallel(r, "offsets", spec, r.Workers, func(in in, shard, n int, emit func(offRes)) {
+		sb := filepath.Join(in.Dir, fmt.Sprint("o", shard))
+		idx := 0
+		for _, k := range c11OffsetSpellings {
+			for _, mode := range []string{"--all", "single"} {
+				if idx++; idx%n != shard {
+					continue
+				}
+				v := 1000 // numeric value of the spelling (anything above the chain length addresses nothing)
+				if t := strings.TrimLeft(k, "0"); t == "" {
+					v = 0
+				} else if len(t) <= 3 {
+					v, _ = strconv.Atoi(t)
+				}
+				old := []ruleSpec{{ID: "123456", Regex: "OLD", Chain: []string{"OLDC1", "OLDC2"}}, {ID: "123457", Regex: "OLDB"}}
+				want := []ruleSpec{{ID: "123456", Regex: "OLD", Chain: []string{"OLDC1", "OLDC2"}}, {ID: "123457", Regex: "OLDB"}}
+				okay := v >= 0 && v <= 2
+				if okay {
+					if mode == "--all" {
+						want[1].Regex = "litb"
+					}
+					if v == 0 {
+						want[0].Regex = "litk"
+					} else {
+						want[0].Chain[v-1] = "litk"
+					}
+				}
+				t := core.Tree{"regex-assembly/123456-chain" + k + ".ra": "litk\n", "regex-assembly/123457.ra": "litb\n",
+					"rules/REQUEST-123-TEST.conf": rulesFile(old...), "rules/REQUEST-999-OTHER.conf": "untouched\n"}
+				os.RemoveAll(sb)
+				t.Materialise(sb)
+				before := core.Snapshot(sb)
+				args := []string{"-d", sb, "regex", "update", "--all"}
+				if mode == "single" {
+					args = []string{"-d", sb, "regex", "update", "123456-chain" + k}
+				}
+				r.Inflight(fmt.Sprint(args))
+				rc := core.RunCLI(r.Crs, sb, "", nil, args...)
+				b, _ := os.ReadFile(filepath.Join(sb, "rules/REQUEST-123-TEST.conf"))
+				ch := before.Diff(core.Snapshot(sb), false)
+				var why []string
+				if string(b) != rulesFile(want...) {
+					why = append(why, fmt.Sprintf("rules file is not the expected one (offset %s addresses something: %v)", k, okay))
+				}
+				if (rc.Exit == 0) != okay {
+					why = append(why, fmt.Sprintf("exit %d", rc.Exit))
+				}
+				for _, c := range ch {
+					if !strings.HasSuffix(c, "REQUEST-123-TEST.conf") {
+						why = append(why, "other file changed: "+c)
+					}
+				}
+				emit(offRes{k, mode, len(why) == 0, strings.Join(why, "; ")})
+			}
+		}
+	})
+	deaths = append(deaths, d3...)
 	if r.IsWorker() {
 		return
+	}
+	offRuns := 0
+	for _, o := range offs {
+		offRuns++
+		if !o.Agree {
+			r.Report(core.Violation{Clause: "chain-offset-as-written", Key: o.Mode + " chain" + o.K, What: fmt.Sprintf("`regex update` %s with chain offset %q: %s", o.Mode, o.K, o.Why), Detail: o})
+		}
 	}
 	for _, d := range deaths {
 		r.HarnessError("worker %s/%d %s on %q: %s", d.Stage, d.Shard, d.Kind, d.Case, tailStr(d.Log, 300))
@@ -410,7 +486,8 @@ func C11(r *core.Run) {
 	r.Cov["cases_without_target"] = tot.NoTarget
 	r.Cov["failing_cases"] = len(tot.Fails)
 	r.Cov["distinct_nontrivial"] = tot.Updated
-	r.Cov["traces_validated_against_impl"] = validated
+	r.Cov["traces_validated_against_impl"] = validated + offRuns
+	r.Cov["offset_spelling_runs_cli"] = offRuns
 	r.Cov["exhaustive"] = len(deaths) == 0
 	r.Cov["bound"] = map[string]any{"block_kinds": len(blocks), "max_blocks": spec.Max, "regexes": c11Regexes, "offsets": "0..3", "variants": "LF/CRLF x final newline"}
 	r.Cov["rule"] = "all rules files of <= n blocks over the block kinds (comments incl. ones mentioning id:R, blanks, rules with @rx/!@rx/@pm for ids R, R+1 and a 7-digit id having R as prefix, operands containing \"@rx and \" \\, chains of 1-3 links) x line endings x final newline x every target id (+ an absent one) x offsets 0..3 x new regexes; executed on the real updateRegex (in-process); the generator knows the byte span of every operand, so the expected file is the original with exactly that span replaced, or failure with the file untouched; non-trivial = cases with a target"
